@@ -116,7 +116,20 @@ let () =
          | SNoCompile (CScanErr e) -> Printf.printf "%s R=nocompile:%s\n" id (show_serr e)
          | SNoCompile (CParseErr e) -> Printf.printf "%s R=nocompile:%s\n" id (show_perr e)
          | SNoCompile (COk _) -> failwith "script"
-         | SRan (r, _, a) -> if marked r || marked a then Printf.printf "%s UNMODELLED(builtin)\n" id else Printf.printf "%s R=%s A=%s\n" id (show_res r) (show_res a))
+         | SRan (r, _, a, _, _) -> if marked r || marked a then Printf.printf "%s UNMODELLED(builtin)\n" id else Printf.printf "%s R=%s A=%s\n" id (show_res r) (show_res a))
+    | L [A "rebind"; A id; L (A "vars" :: _); L (A "vars" :: vs2); e] ->
+        (* the binding in force is the second one *)
+        Printf.printf "%s R=%s\n" id (show_res (eval_static (vars_of vs2) (expr e)))
+    | L (A "serscript" :: A id :: cs) ->
+        let marked_e = function NativeFunctionError (n, _) -> n = unmodelled_mark | _ -> false in
+        let rec nf_v = function VNum f -> (match f with B754_nan | B754_infinity _ -> true | _ -> false) | VArr l -> List.exists nf_v l | _ -> false in
+        let rec nf = function ELit v -> nf_v v | EUn (_, r) -> nf r | EBin (_, l, r) -> nf l || nf r | ETer (_, l, m, r) -> nf l || nf m || nf r
+                              | EArr es -> List.exists nf es | ECall (_, ps) -> List.exists nf ps | EVar _ -> false in
+        (match run_script (nat_of_int 1) [] (cp_list cs) with
+         | SNoCompile _ -> Printf.printf "%s R=nocompile\n" id
+         | SRan (_, _, _, OErr x, _) when marked_e x -> Printf.printf "%s UNMODELLED(builtin)\n" id
+         | SRan (_, _, _, OOutOfFuel, _) -> Printf.printf "%s UNMODELLED(fuel)\n" id
+         | SRan (_, _, _, _, o) -> Printf.printf "%s R=compiled E=%s NF=%s\n" id (show_expr o) (if nf o then "true" else "false"))
     | L (A "text" :: A id :: cs) ->
         (match compile0 (cp_list cs) with
          | COk e -> Printf.printf "%s R=ok:%s\n" id (show_expr e)
